@@ -142,40 +142,43 @@ class ReadElementStatus(SCSICommand):
         #
         _bc = scsi_ba_to_int(data[5:8])
         data = data[8 : 8 + _bc]
-        while len(data):
+        # pages and descriptors are walked through by position: cutting what was
+        # decoded off the front copies the rest of the data once for every one
+        _pos = 0
+        while _pos < len(data):
             _r = {}
-            _bc = scsi_ba_to_int(data[5:8])
-            _edl = scsi_ba_to_int(data[2:4])
+            _bc = scsi_ba_to_int(data[_pos + 5 : _pos + 8])
+            _edl = scsi_ba_to_int(data[_pos + 2 : _pos + 4])
 
-            decode_bits(data, cls._element_status_page_bits, _r)
-            _d = data[8 : 8 + _bc]
+            decode_bits(data[_pos : _pos + 8], cls._element_status_page_bits, _r)
+            _d = data[_pos + 8 : _pos + 8 + _bc]
             _ed = []
+            _dpos = 0
             # a descriptor length of zero would never advance through the page
-            while _edl and len(_d):
+            while _edl and _dpos < len(_d):
                 _rr = {}
+                # the fixed part of the descriptor, then the volume tags
+                _desc = _d[_dpos : _dpos + 12]
+                _tpos = _dpos + 12
 
-                decode_bits(_d, cls._element_status_descriptor_bits, _rr)
-                _dd = _d[12:]
+                decode_bits(_desc, cls._element_status_descriptor_bits, _rr)
                 if _r["pvoltag"]:
-                    _rr.update({"primary_volume_tag": _dd[0:36]})
-                    _dd = _dd[36:]
+                    _rr.update({"primary_volume_tag": _d[_tpos : _tpos + 36]})
+                    _tpos += 36
                 if _r["avoltag"]:
-                    _rr.update({"alternate_volume_tag": _dd[0:36]})
-                    _dd = _dd[
-                        36:
-                    ]  # this is not going to used again so we may just delete it?
+                    _rr.update({"alternate_volume_tag": _d[_tpos : _tpos + 36]})
 
                 if _r["element_type"] == cls.ELEMENT_TYPE.DATA_TRANSFER:
-                    decode_bits(_d, cls._data_transfer_descriptor_bits, _rr)
+                    decode_bits(_desc, cls._data_transfer_descriptor_bits, _rr)
                 if _r["element_type"] == cls.ELEMENT_TYPE.STORAGE:
-                    decode_bits(_d, cls._storage_descriptor_bits, _rr)
+                    decode_bits(_desc, cls._storage_descriptor_bits, _rr)
                 if _r["element_type"] == cls.ELEMENT_TYPE.IMPORT_EXPORT:
-                    decode_bits(_d, cls._import_export_descriptor_bits, _rr)
+                    decode_bits(_desc, cls._import_export_descriptor_bits, _rr)
                 _ed.append(_rr)
-                _d = _d[_edl:]
+                _dpos += _edl
             _r.update({"element_descriptors": _ed})
             _esd.append(_r)
-            data = data[8 + _bc :]
+            _pos += 8 + _bc
         result.update({"element_status_pages": _esd})
         return result
 
